@@ -234,6 +234,7 @@ func runC03(c *Ctx) {
 	entries = append(entries, ext...)
 	entries = append(entries, frame...)
 	recvs := make(map[*ssa.Function]map[int]string)
+	allocSeen, allocPos, allocWhy := map[string]bool{}, map[string]string{}, map[string]string{}
 	var mu = &c.mu
 	results := c.RunE1(entries, false, func(a *absint.Analyzer, fn *ssa.Function, st *absint.State, args []absint.Term) {
 		preJTMsg(a, fn, st, args)
@@ -255,7 +256,52 @@ func runC03(c *Ctx) {
 		mu.Lock()
 		recvs[fn] = objs
 		mu.Unlock()
+		// allocation sizes: what a decoder allocates is bounded by what it was given. The input lengths: byte-slice
+		// parameters and the Body of a *JTMessage parameter.
+		var inputs []absint.Lin
+		for i, p := range fn.Params {
+			if s, isS := args[i].(*absint.Slice); isS {
+				inputs = append(inputs, s.Len)
+				continue
+			}
+			if pt, isP := p.Type().Underlying().(*types.Pointer); isP && strings.HasSuffix(pt.Elem().String(), "jt808.JTMessage") {
+				if bt, _ := a.LoadField(st, args[i], p.Type(), "Body"); bt != nil {
+					if bs, isS := bt.(*absint.Slice); isS {
+						inputs = append(inputs, bs.Len)
+					}
+				}
+			}
+		}
+		entry := fn
+		a.OnMake = func(f *ssa.Function, site *ssa.MakeSlice, st *absint.State, length, capacity absint.Lin) {
+			ok := capacity.IsConst() || st.Cons.UpperBoundLE(capacity, 1<<16)
+			for _, in := range inputs {
+				if st.Cons.EntailsGE(in.Scale(8).AddC(64).Sub(capacity)) {
+					ok = true
+				}
+			}
+			key := shortFn(entry) + " / " + c.constructOf(f, site)
+			mu.Lock()
+			defer mu.Unlock()
+			if prev, seen := allocSeen[key]; seen && !prev {
+				return // already reported as unbounded on another path
+			}
+			allocSeen[key] = ok
+			allocPos[key] = c.P.RelPos(site.Pos())
+			if !ok {
+				allocWhy[key] = fmt.Sprintf("make with capacity %s: not bounded by a constant, by 65536, or by 8*len(input)+64 on this path - the size comes from a field of the input that has not been checked against the bytes present, so one short frame makes the decoder allocate (and keep) as much as the field says", a.Render(absint.Int{L: capacity}))
+			}
+		}
 	})
+	c.R.Rules["E1.alloc"] = "what a decoder allocates is bounded by what it was given: the capacity of every make in a decoder entry (helpers inlined) is a constant, at most 65536 by the range of its type, or entailed to be at most 8*len(input)+64 by the checks that precede it (a count field must be validated against the body length before it sizes an allocation)"
+	for key, ok := range allocSeen {
+		st := report.Discharged
+		if !ok {
+			st = report.Violated
+		}
+		c.R.Add("E1.alloc", key, allocPos[key], st, allocWhy[key])
+	}
+	c.R.Require("E1.alloc", 5, "")
 	n := c.AddE1(results, false)
 	c.R.Notes["e1_obligation_instances"] = n
 	assumed := map[string]int{}
